@@ -138,15 +138,15 @@ func vsymProduceAs(ctx context.Context, l *PartitionLog, records []byte, who str
 	if err != nil {
 		return vsymAck{}, false
 	}
-	if who != "" {
+	if who != "" && who[0] != '~' {
 		vsym_Event("append:" + who)
 	}
 	res, err := l.AppendBatch(ctx, batch)
 	if err != nil {
 		return vsymAck{}, false
 	}
-	if who != "" {
-		vsym_Event("flush:" + who)
+	if who != "" && who[0] != '~' {
+		vsym_Event("flush:" + who) // (names starting with '~': no producer-step events, S3 calls only)
 	}
 	err = l.Flush(ctx)
 	if err != nil {
